@@ -51,6 +51,32 @@ fn run_soak(ctx: &Ctx, c: &SoakCase) -> CaseResult {
     fs::run_case(ctx, &case)
 }
 
+/// A completion that never arrives costs the 30 s hang guard per evaluation; shrinking such a
+/// case would take hours. Once a case has hit the guard, every *other* candidate the shrinker
+/// proposes is waved through, so the case is reported as it was generated (it still replays).
+struct HangGate(std::cell::Cell<Option<u64>>);
+
+impl HangGate {
+    fn new() -> HangGate {
+        HangGate(std::cell::Cell::new(None))
+    }
+    fn run<C: Serialize>(&self, c: &C, f: impl FnOnce() -> CaseResult) -> CaseResult {
+        let h = vh::runner::hash_str(&serde_json::to_string(c).unwrap());
+        if let Some(orig) = self.0.get() {
+            if h != orig {
+                return Ok(vh::runner::CaseReport::new());
+            }
+        }
+        let r = f();
+        if let Err(fl) = &r {
+            if fl.sig.contains("|hang guard") {
+                self.0.set(Some(h));
+            }
+        }
+        r
+    }
+}
+
 fn g(op: Op) -> OpG {
     OpG { op, a: false }
 }
@@ -164,17 +190,10 @@ pub fn run(ctx: &Ctx) {
     ctx.extra("opcodes_excluded_unsupported_by_kernel", json!(excluded));
     ctx.extra("setup_flag_sets_refused", json!(pr.refused));
 
-    let timing = std::env::var("C18_TIMING").is_ok();
-    let t0 = std::time::Instant::now();
-    let lap = |what: &str| {
-        if timing {
-            eprintln!("[C18 timing] {what}: {:.2}s since start", t0.elapsed().as_secs_f64());
-        }
-    };
+    remove_stale_roots();
     fs::remove_case_root(ctx);
     // (1) teardown
     teardown::run(ctx);
-    lap("drop");
 
     // (2) one scenario per constructor, same case type and sub-check name as the generated ones
     if !ctx.is_replay() {
@@ -190,31 +209,34 @@ pub fn run(ctx: &Ctx) {
         }
     }
 
-    lap("each");
     // (3) generated batches
     let max_b = if ctx.thorough() { 120 } else { 24 };
-    let spent = std::cell::Cell::new(0f64);
-    ctx.run_prop("fs", ctx.cases(150, 2500), fs::case_strategy(max_b), |c: &FsCase| {
-        let t = std::time::Instant::now();
-        let r = fs::run_case(ctx, c);
-        spent.set(spent.get() + t.elapsed().as_secs_f64());
-        r
-    });
-    if timing {
-        eprintln!("[C18 timing] fs: {:.2}s inside run_case", spent.get());
-    }
-    lap("fs");
-    ctx.run_prop("sock", ctx.cases(120, 2000), sock::case_strategy(if ctx.thorough() { 60 } else { 16 }), |c: &SockCase| sock::run_case(ctx, c));
+    let gate = HangGate::new();
+    ctx.run_prop("fs", ctx.cases(150, 2500), fs::case_strategy(max_b), |c: &FsCase| gate.run(c, || fs::run_case(ctx, c)));
+    let gate = HangGate::new();
+    ctx.run_prop("sock", ctx.cases(120, 2000), sock::case_strategy(if ctx.thorough() { 60 } else { 16 }), |c: &SockCase| gate.run(c, || sock::run_case(ctx, c)));
 
-    lap("sock");
     // (4) one ring, many batches
     let nb = if ctx.thorough() { 1500u32..4000 } else { 200u32..400 };
     let soak = (ring::cfg_strategy(), any::<u64>(), nb).prop_map(|(cfg, seed, nbatches)| SoakCase { cfg, seed, nbatches });
-    ctx.run_prop("soak", ctx.cases(1, 12), soak, |c: &SoakCase| run_soak(ctx, c));
+    let gate = HangGate::new();
+    ctx.run_prop("soak", ctx.cases(1, 12), soak, |c: &SoakCase| gate.run(c, || run_soak(ctx, c)));
 
-    lap("soak");
     fs::remove_case_root(ctx);
     ctx.extra("max_batches_on_one_ring", json!(MAX_BATCHES.load(std::sync::atomic::Ordering::Relaxed)));
+}
+
+/// World directories left behind by workers that were killed (their pid is gone).
+fn remove_stale_roots() {
+    let Ok(rd) = std::fs::read_dir("/tmp") else { return };
+    for e in rd.flatten() {
+        let name = e.file_name().to_string_lossy().to_string();
+        let Some(rest) = name.strip_prefix("verif-c18-") else { continue };
+        let pid = rest.split('-').next().unwrap_or("");
+        if !pid.is_empty() && pid.chars().all(|c| c.is_ascii_digit()) && !std::path::Path::new(&format!("/proc/{pid}")).exists() {
+            let _ = std::fs::remove_dir_all(e.path());
+        }
+    }
 }
 
 pub static MAX_BATCHES: std::sync::atomic::AtomicU64 = std::sync::atomic::AtomicU64::new(0);
